@@ -7,6 +7,8 @@ from fractions import Fraction
 from typing import Dict, List, Optional
 
 from .. import alg
+from ..pat import Snips
+from ..util import lexical_guards, atomic_facts
 from ..bellman import check_einsums_in_function, check_elementwise_in_function, monomials, classify_monomial
 from ..callgraph import CallGraph
 from ..cfg import cfg_of
@@ -37,20 +39,22 @@ def run(ctx: Ctx):
     E = P.cls("ExplicitStateGraph")
     f = E.methods["_state_nodes_to_matrices"]
     nodes_p, actions_p = f.positional_params[1:3]
-    src = {ast.unparse(n.targets[0]): n for n in fn_body_nodes(f) if isinstance(n, ast.Assign) and len(n.targets) == 1}
-    # ---- index maps
-    si_m, ai_m = src.get("state_index"), src.get("action_index")
-    ok = si_m is not None and ast.unparse(si_m.value).replace(" ", "") == f"{{n.state:ifori,ninenumerate({nodes_p})}}"
-    ctx.check(ok, "TEN-4", f, si_m if si_m is not None else f.node, "state_index maps each node's state to its row position in the node list", "", "state index map is not node.state -> position in the given node list")
-    ok = ai_m is not None and ast.unparse(ai_m.value).replace(" ", "") == f"{{a:ifori,ainenumerate({actions_p})}}"
-    ctx.check(ok, "TEN-4", f, ai_m if ai_m is not None else f.node, "action_index maps each action to its column position in the given action list", "", "action index map is not action -> position in the given action list")
-    for arr, shp in (("tf", "(n_states+1,n_actions,n_states+1)"), ("rf", "(n_states+1,n_actions,n_states+1)"), ("am", "(n_states+1,n_actions)")):
-        n = src.get(arr)
-        ok = n is not None and ast.unparse(n.value).replace(" ", "") == f"np.zeros({shp})"
-        ctx.check(ok, "TEN-4", f, n if n is not None else f.node, f"{arr} allocated as {shp} (one extra pseudo-terminal row/column)", "", f"`{arr}` allocation changed")
-    ns_n, na_n = src.get("n_states"), src.get("n_actions")
-    ok = ns_n is not None and ast.unparse(ns_n.value) == f"len({nodes_p})" and na_n is not None and ast.unparse(na_n.value) == f"len({actions_p})"
-    ctx.check(ok, "TEN-4", f, ns_n if ns_n is not None else f.node, "extents are the lengths of the node / action lists", "", "extents are not len(state_nodes) / len(actions)")
+    S = Snips(f)
+    # ---- index maps, extents, allocations (one consistent binding of the locals)
+    sol = S.solve([f"state_index = {{n.state: i for i, n in enumerate({nodes_p})}}",
+                   f"action_index = {{a: i for i, a in enumerate({actions_p})}}"])
+    env = sol[0] if sol else {}
+    ctx.check(sol is not None, "TEN-4", f, sol[1][0] if sol else f.node, "state_index maps each node's state to its row position in the node list; action_index each action to its column", "",
+              "index maps are not node.state -> position in the given node list and action -> position in the given action list")
+    ex = S.solve([f"n_states = len({nodes_p})", f"n_actions = len({actions_p})"], env)
+    ctx.check(ex is not None, "TEN-4", f, ex[1][0] if ex else f.node, "extents are the lengths of the node / action lists", "", "extents are not len(state_nodes) / len(actions)")
+    env = ex[0] if ex else env
+    al3 = S.find("V_arr = np.zeros((n_states + 1, n_actions, n_states + 1))", env)
+    al2 = S.find("am = np.zeros((n_states + 1, n_actions))", env)
+    ctx.check(len(al3) == 2, "TEN-4", f, al3[0][0] if al3 else f.node, "transition and reward arrays allocated as (n_states+1, n_actions, n_states+1) (one extra pseudo-terminal row/column)", "", "3-d allocations changed")
+    ctx.check(len(al2) == 1, "TEN-4", f, al2[0][0] if al2 else f.node, "availability array allocated as (n_states+1, n_actions)", "", "availability allocation changed")
+    if al2:
+        env = al2[0][1]
     # ---- loops and stores
     loops = [n for n in fn_body_nodes(f) if isinstance(n, ast.For)]
     nl = [l for l in loops if ast.unparse(l.iter) == nodes_p]
@@ -62,189 +66,238 @@ def run(ctx: Ctx):
     info = items_loop_info(sl[0])
     nsv, pv = info[3], info[4]
     avar = ast.unparse(al[0].target)
-    ctx.check(info[1] == "next_state_dist" and info[2] == [svar, avar], "TEN-4", f, sl[0], f"successors of next_state_dist({svar}, {avar})", "", f"successor loop enumerates {info[1]}({', '.join(info[2])})")
+    ctx.check(info[1] == "next_state_dist" and info[2] == [svar, avar], "TEN-4", f, sl[0], "successors of next_state_dist(<node state>, <action>)", "", f"successor loop enumerates {info[1]}({', '.join(info[2])})")
     ctx.check(ast.unparse(al[0].iter).endswith(f".actions({svar})"), "TEN-4", f, al[0], "actions enumerated are the node state's own", "", "actions are not mdp.actions(<node state>)")
+    sidx, aidx = env.get("state_index"), env.get("action_index")
     idx = {}
     for n in ast.walk(nl[0]):
-        if isinstance(n, ast.Assign) and isinstance(n.value, ast.Subscript) and isinstance(n.value.value, ast.Name) and n.value.value.id in ("state_index", "action_index"):
-            idx[ast.unparse(n.targets[0])] = (n.value.value.id, ast.unparse(n.value.slice))
-    want_idx = {"si": ("state_index", svar), "ai": ("action_index", avar), "nsi": ("state_index", nsv)}
-    for k, v in want_idx.items():
-        ctx.check(idx.get(k) == v, "TEN-4", f, nl[0], f"{k} = {v[0]}[{v[1]}]", str(idx.get(k)), f"index `{k}` is `{idx.get(k)}`: a cell would be written at the position of a different entity")
-    stores = {ast.unparse(n.targets[0]): n for n in ast.walk(sl[0]) if isinstance(n, ast.Assign) and isinstance(n.targets[0], ast.Subscript)}
+        if isinstance(n, ast.Assign) and isinstance(n.value, ast.Subscript) and isinstance(n.value.value, ast.Name) and n.value.value.id in (sidx, aidx):
+            idx[(n.value.value.id, ast.unparse(n.value.slice))] = ast.unparse(n.targets[0])
+    si, ai, nsi = idx.get((sidx, svar)), idx.get((aidx, avar)), idx.get((sidx, nsv))
+    for k, v in (("row index", si), ("column index", ai), ("successor index", nsi)):
+        ctx.check(v is not None, "TEN-4", f, nl[0], f"{k} is looked up in the index map of the entity it stands for", str(idx),
+                  f"no {k} of the form <index map>[<entity>] for the enumerated entity: index lookups are {idx}; a cell would be written at the position of a different entity")
     rdef = [n for n in ast.walk(sl[0]) if isinstance(n, ast.Assign) and isinstance(n.value, ast.Call) and ast.unparse(n.value.func).endswith(".reward")]
     rvar = ast.unparse(rdef[0].targets[0]) if rdef else "reward"
     ok = bool(rdef) and [ast.unparse(x) for x in rdef[0].value.args] == [svar, avar, nsv]
-    ctx.check(ok, "TEN-4", f, rdef[0] if rdef else sl[0], f"reward = mdp.reward({svar}, {avar}, {nsv})", "", "reward is not that of the enumerated transition")
-    t_st, r_st = stores.get("tf[si, ai, nsi]"), stores.get("rf[si, ai, nsi]")
-    ctx.check(t_st is not None and ast.unparse(t_st.value) == pv, "TEN-4", f, t_st if t_st is not None else sl[0], "tf[si, ai, nsi] = transition probability", "", "inside-graph transition store changed")
-    ctx.check(r_st is not None and ast.unparse(r_st.value) == rvar, "TEN-4", f, r_st if r_st is not None else sl[0], "rf[si, ai, nsi] = reward", "", "inside-graph reward store changed")
+    ctx.check(ok, "TEN-4", f, rdef[0] if rdef else sl[0], "reward = mdp.reward(s, a, ns) of the enumerated transition", "", "reward is not that of the enumerated transition")
+    am_n = env.get("am")
+    # which 3-d array is the transition array: the one that receives the probability
+    roles = {"si": si, "ai": ai, "nsi": nsi, "prob": pv, "reward": rvar}
+    tst = S.find("tf[si, ai, nsi] = prob", roles, within=sl[0]) if si and ai and nsi else []
+    tfn = tst[0][1]["tf"] if tst else None
+    rst = S.find("rf[si, ai, nsi] = reward", roles, within=sl[0]) if si and ai and nsi else []
+    rfn = rst[0][1]["rf"] if rst else None
+    alloc = {e["arr"] for _, e in al3}
+    ctx.check(bool(tst) and tfn in alloc, "TEN-4", f, tst[0][0] if tst else sl[0], "T[si, ai, nsi] = transition probability", "", "inside-graph transition store changed")
+    ctx.check(bool(rst) and rfn in alloc and rfn != tfn, "TEN-4", f, rst[0][0] if rst else sl[0], "R[si, ai, nsi] = reward", "", "inside-graph reward store changed")
     cfg = cfg_of(f)
-    if t_st is not None:
-        gs = [(ast.unparse(cfg.nodes[b].ast.test), lab) for b, lab in cfg.guards(cfg.node_for(t_st)) if cfg.nodes[b].kind == "if"]
-        ctx.check(any(t == f"{nsv} in state_index" and lab.startswith("T") for t, lab in gs), "TEN-4", f, t_st, "inside-graph stores only for successors that have a row", str(gs), "inside-graph store is not guarded by `ns in state_index`")
-    am_st = [n for n in ast.walk(al[0]) if isinstance(n, ast.Assign) and ast.unparse(n.targets[0]) == "am[si, ai]"]
-    ctx.check(bool(am_st) and ast.unparse(am_st[0].value) == "1", "TEN-4", f, am_st[0] if am_st else al[0], "am[si, ai] = 1 for the state's own actions", "", "availability store changed")
+    if tst:
+        facts = atomic_facts(lexical_guards(f, tst[0][0]))
+        ctx.check((f"{nsv} in {sidx}", True) in facts, "TEN-4", f, tst[0][0], "inside-graph stores only for successors that have a row", str(sorted(facts)), "inside-graph store is not guarded by `ns in state_index`")
+    am_st = S.find("am[si, ai] = 1", {**roles, "am": am_n}, within=al[0]) if am_n and si and ai else []
+    ctx.check(bool(am_st), "TEN-4", f, am_st[0][0] if am_st else al[0], "availability[si, ai] = 1 for the state's own actions", "", "availability store changed")
     # ---- absorbing nodes
     ab = [n for n in nl[0].body if isinstance(n, ast.If) and ast.unparse(n.test).endswith(f".is_absorbing({svar})")]
     if ab:
         b = [ast.unparse(x) for x in ab[0].body]
-        ctx.check("tf[si, :, -1] = 1" in b and "am[si, :] = 1" in b and any(isinstance(x, ast.Continue) for x in ab[0].body), "BND-1", f, ab[0],
+        ctx.check(f"{tfn}[{si}, :, -1] = 1" in b and f"{am_n}[{si}, :] = 1" in b and any(isinstance(x, ast.Continue) for x in ab[0].body), "BND-1", f, ab[0],
                   "absorbing nodes go to the pseudo-terminal with reward 0 under every action", str(b), "absorbing nodes are not mapped to the zero-reward pseudo-terminal")
         ctx.check(nl[0].body.index(ab[0]) < nl[0].body.index(al[0]), "BND-1", f, ab[0], "absorbing test precedes the action loop", "", "absorbing nodes are expanded like ordinary nodes")
     else:
         ctx.violation("BND-1", f, nl[0], "absorbing nodes are pseudo-terminal", "absorbing nodes are not special-cased: their successors' values would be backed up")
     # ---- boundary terms
     aug = {ast.unparse(n.target): n for n in ast.walk(sl[0]) if isinstance(n, ast.AugAssign)}
-    tb = aug.get("tf[si, ai, -1]")
+    tb = aug.get(f"{tfn}[{si}, {ai}, -1]")
     ctx.check(tb is not None and isinstance(tb.op, ast.Add) and ast.unparse(tb.value) == pv, "BND-2", f, tb if tb is not None else sl[0], "outside successors add their probability to the pseudo-terminal column", "", "boundary probability is not accumulated")
-    rbs = [n for n in ast.walk(sl[0]) if isinstance(n, ast.AugAssign) and ast.unparse(n.target) == "rf[si, ai, -1]"]
+    rbs = [n for n in ast.walk(sl[0]) if isinstance(n, ast.AugAssign) and ast.unparse(n.target) == f"{rfn}[{si}, {ai}, -1]"]
     gamma = "self.mdp.discount_rate"
     seen_abs = seen_non = False
+    names = {pv: "p", rvar: "reward"}
+
+    def canon(p):
+        """rename the two local atoms to role names so that the expected normal form is independent of their spelling."""
+        out = {}
+        for m_, c in p.items():
+            out[tuple(sorted((names.get(k, k.replace(f"[{nsv}]", "[ns]")), e) for k, e in m_))] = c
+        return out
     for n in rbs:
-        gs = []
-        for b, lab in cfg.control_deps(cfg.node_for(n)):
-            if cfg.nodes[b].kind != "if":
-                continue
-            tt, lb = cfg.nodes[b].ast.test, lab.split("|")[0]
-            if isinstance(tt, ast.UnaryOp) and isinstance(tt.op, ast.Not):
-                tt, lb = tt.operand, {"T": "F", "F": "T"}.get(lb, lb)
-            gs.append((ast.unparse(tt), lb))
-        p = alg.normalise(n.value)
-        absorbing_branch = any(t.endswith(f".is_absorbing({nsv})") and lab == "T" for t, lab in gs)
-        non_branch = any(t.endswith(f".is_absorbing({nsv})") and lab == "F" for t, lab in gs)
+        facts = atomic_facts(lexical_guards(f, n))
+        p = canon(alg.normalise(n.value))
+        absorbing_branch = any(t.endswith(f".is_absorbing({nsv})") and tr for t, tr in facts)
+        non_branch = any(t.endswith(f".is_absorbing({nsv})") and not tr for t, tr in facts)
         if absorbing_branch:
             seen_abs = True
-            want = {tuple(sorted(((pv, 1), (rvar, 1)))): Fraction(1)}
+            want = {tuple(sorted((("p", 1), ("reward", 1)))): Fraction(1)}
             ctx.check(p == want, "BND-3", f, n, "absorbing outside successor contributes p * reward only", alg.show(p), f"absorbing boundary term normalises to `{alg.show(p)}` (a terminal successor has no future value)")
         elif non_branch:
             seen_non = True
-            val = f"self.states_to_nodes[{nsv}].value"
-            want = {tuple(sorted(((pv, 1), (rvar, 1)))): Fraction(1), tuple(sorted(((pv, 1), (gamma, 1), (val, 1)))): Fraction(1)}
+            val = "self.states_to_nodes[ns].value"
+            want = {tuple(sorted((("p", 1), ("reward", 1)))): Fraction(1), tuple(sorted((("p", 1), (gamma, 1), (val, 1)))): Fraction(1)}
             ctx.check(p == want, "BND-3", f, n, "non-absorbing outside successor contributes p * (reward + gamma * node value)", alg.show(p),
                       f"boundary term normalises to `{alg.show(p)}`: it must be p*reward + p*gamma*value(ns) with the *current node value* of that successor")
     ctx.check(seen_abs and seen_non, "BND-3", f, sl[0], "boundary terms distinguish absorbing and non-absorbing outside successors", "", "the two boundary branches are not both present under an is_absorbing(ns) test")
-    ren = [n for n in ast.walk(al[0]) if isinstance(n, ast.AugAssign) and isinstance(n.op, ast.Div) and ast.unparse(n.target) == "rf[si, ai, -1]"]
+    ren = [n for n in ast.walk(al[0]) if isinstance(n, ast.AugAssign) and isinstance(n.op, ast.Div) and ast.unparse(n.target) == f"{rfn}[{si}, {ai}, -1]"]
     if ren:
-        ok = ast.unparse(ren[0].value) == "tf[si, ai, -1]" and not any(ren[0] is x for x in ast.walk(sl[0]))
+        ok = ast.unparse(ren[0].value) == f"{tfn}[{si}, {ai}, -1]" and not any(ren[0] is x for x in ast.walk(sl[0]))
         ctx.check(ok, "BND-4", f, ren[0], "pseudo-terminal reward renormalised by the total boundary probability, after the successor loop", "", "renormalisation is by a different quantity or happens inside the successor loop")
-        gs = [ast.unparse(cfg.nodes[b].ast.test) for b, lab in cfg.control_deps(cfg.node_for(ren[0])) if cfg.nodes[b].kind == "if"]
-        ctx.check(any("tf[si, ai, -1] > 0" == t for t in gs), "BND-4", f, ren[0], "renormalisation only when boundary probability is positive", "", "division by a zero boundary probability is possible")
+        facts = atomic_facts(lexical_guards(f, ren[0]))
+        ctx.check((f"{tfn}[{si}, {ai}, -1] > 0", True) in facts, "BND-4", f, ren[0], "renormalisation only when boundary probability is positive", str(sorted(facts)), "division by a zero boundary probability is possible")
     else:
         ctx.violation("BND-4", f, al[0], "pseudo-terminal reward renormalisation", "the probability-weighted boundary reward is never divided by the boundary probability")
     rets = [n for n in fn_body_nodes(f) if isinstance(n, ast.Return)]
-    ctx.check(bool(rets) and ast.unparse(rets[0].value).replace(" ", "") == "(tf,rf,am)", "TEN-4", f, rets[0] if rets else f.node, "returns (tf, rf, am)", "", "return order changed")
+    ctx.check(bool(rets) and ast.unparse(rets[0].value).replace(" ", "") == f"({tfn},{rfn},{am_n})", "TEN-4", f, rets[0] if rets else f.node, "returns (T, R, availability)", "", "return order changed")
     # ---- inner policy iteration
     pi = E.methods["_policy_iteration"]
-    typer = Typer(param_arrays={"tf": "transition_matrix", "rf": "reward_matrix", "am": "action_matrix"})
+    ptf, prf, pam = pi.positional_params[1:4]
+    typer = Typer(param_arrays={ptf: "transition_matrix", prf: "reward_matrix", pam: "action_matrix"})
     check_einsums_in_function(ctx, pi, typer)
     check_elementwise_in_function(ctx, pi, typer)
-    ps = {ast.unparse(n.targets[0]): n for n in ast.walk(pi.node) if isinstance(n, ast.Assign) and len(n.targets) == 1}
-    v = ps.get("v")
-    if v is not None and isinstance(v.value, ast.Call) and ast.unparse(v.value.func) == "np.linalg.solve":
-        pA = alg.normalise(v.value.args[0])
-        ok = len(pA) == 2 and any(c == -1 and dict(m).get("self.mdp.discount_rate") == 1 and dict(m).get("mp") == 1 for m, c in pA.items()) \
-            and any(c == 1 and len(m) == 1 and m[0][0].startswith("np.eye(") for m, c in pA.items())
-        ctx.check(ok, "BEL-2", pi, v, "evaluation solves (eye - gamma * P_pi) v = r_pi", alg.show(pA), f"system matrix normalises to `{alg.show(pA)}`")
-        ctx.check(ast.unparse(v.value.args[1]) == "s_rf", "BEL-2", pi, v, "right-hand side is the policy's expected reward", "", "right-hand side changed")
+    SP = Snips(pi)
+    sv, pe = SP.first("v = np.linalg.solve(E_A, s_rf)")
+    if sv is not None:
+        pA = alg.normalise(pe["A"])
+        mpn = None
+        for m_, c in pA.items():
+            d = dict(m_)
+            if c == -1 and d.get("self.mdp.discount_rate") == 1 and len(d) == 2:
+                mpn = next(k for k in d if k != "self.mdp.discount_rate")
+        ok = len(pA) == 2 and mpn is not None and any(c == 1 and len(m_) == 1 and m_[0][0].startswith("np.eye(") for m_, c in pA.items())
+        ctx.check(ok, "BEL-2", pi, sv, "evaluation solves (eye - gamma * P_pi) v = r_pi", alg.show(pA), f"system matrix normalises to `{alg.show(pA)}`")
+        ok = mpn is not None and SP.has(f"{mpn} = np.einsum('sa,san->sn', pi, {ptf})")
+        ctx.check(ok, "BEL-2", pi, sv, "P_pi = sum_a pi(a|s) T(s'|s,a)", "", "policy chain changed")
+        ok = SP.has(f"{pe['s_rf']} = np.einsum('sa,san,san->s', pi, {ptf}, {prf})") or SP.has(f"{pe['s_rf']} = np.einsum('sa,san,san->s', pi, {prf}, {ptf})")
+        ctx.check(ok, "BEL-2", pi, sv, "right-hand side is the policy's expected reward", "", "right-hand side changed")
     else:
         ctx.violation("BEL-2", pi, pi.node, "policy evaluation by linear solve", "no linear solve")
-    qd = [n for n in ast.walk(pi.node) if isinstance(n, ast.Assign) and ast.unparse(n.targets[0]) == "q"]
-    if qd:
-        t = X.expr(pi, qd[1].value if len(qd) > 1 else qd[0].value)
-        ms = monomials(t)
-        cl = [classify_monomial(typer, m) for m in ms]
-        rew = [c for c in cl if c["R"] and c["T"]]
-        fut = [c for c in cl if c["T"] and not c["R"] and c["other"]]
-        ctx.check(len(rew) >= 1 and all(c["disc"] == 0 for c in rew), "BEL-2", pi, qd[0], "look-ahead: T*R undiscounted", str(rew), "look-ahead reward term missing or discounted")
-        ctx.check(len(fut) >= 1 and all(c["disc"] == 1 for c in fut), "BEL-2", pi, qd[0], "look-ahead: T*gamma*v discounted once", str(fut), "look-ahead future term missing or not discounted exactly once")
-    # availability penalty before argmax
+    vname = pe["v"] if pe else None
+    # availability penalty before argmax  (identifies the action-value variable)
     am_calls = [c for c in ast.walk(pi.node) if isinstance(c, ast.Call) and isinstance(c.func, ast.Attribute) and c.func.attr == "argmax"]
+    qn = None
     if am_calls:
         recv = am_calls[0].func.value
         p = alg.normalise(recv)
-        has_pen = any(len(m) == 1 and m[0][0].replace(" ", "") == "np.log(am)" and c == 1 for m, c in p.items())
-        has_q = any(len(m) == 1 and m[0][0] == "q" and c == 1 for m, c in p.items())
-        ctx.check(has_pen and has_q and len(p) == 2, "BEL-4", pi, am_calls[0], "improvement: argmax over actions of q + log(availability)", alg.show(p),
+        has_pen = any(len(m_) == 1 and m_[0][0].replace(" ", "") == f"np.log({pam})" and c == 1 for m_, c in p.items())
+        qa = [m_[0][0] for m_, c in p.items() if len(m_) == 1 and c == 1 and m_[0][0].isidentifier()]
+        qn = qa[0] if len(qa) == 1 else None
+        ctx.check(has_pen and qn is not None and len(p) == 2, "BEL-4", pi, am_calls[0], "improvement: argmax over actions of q + log(availability)", alg.show(p),
                   f"the greedy action is the argmax of `{norm(recv, 70)}`: unavailable actions are not excluded by a -inf penalty, so an unavailable column can be selected")
         ax = kwarg(am_calls[0], "axis")
         ctx.check(ax is not None and ast.unparse(ax) == "1", "BEL-4", pi, am_calls[0], "argmax over the action axis", "", "argmax is not over the action axis")
     else:
         ctx.violation("BEL-4", pi, pi.node, "greedy improvement", "no argmax in the improvement step")
-    cv = ps.get("converged")
-    ctx.check(cv is not None and ast.unparse(cv.value).replace(" ", "") == "(new_pi==pi).all()", "BEL-5", pi, cv if cv is not None else pi.node, "inner iteration stops on policy stability", "", "inner stop rule changed")
+    qd = [n for n in ast.walk(pi.node) if isinstance(n, ast.Assign) and qn and ast.unparse(n.targets[0]) == qn]
+    if not qd:
+        qd = [n for n in ast.walk(pi.node) if isinstance(n, ast.Assign) and isinstance(n.value, ast.Call) and ast.unparse(n.value.func) == "np.einsum"
+              and len(n.value.args) == 3 and str(getattr(n.value.args[0], "value", "")).replace(" ", "") == "san,san->sa"]
+    if qd:
+        ein = [n for n in qd if isinstance(n.value, ast.Call) and ast.unparse(n.value.func) == "np.einsum"]
+        t = X.expr(pi, (ein[0] if ein else qd[-1]).value)
+        ms = monomials(t)
+        cl = [classify_monomial(typer, m_) for m_ in ms]
+        rew = [c for c in cl if c["R"] and c["T"]]
+        fut = [c for c in cl if c["T"] and not c["R"] and c["other"]]
+        ctx.check(len(rew) >= 1 and all(c["disc"] == 0 for c in rew), "BEL-2", pi, qd[0], "look-ahead: T*R undiscounted", str(rew), "look-ahead reward term missing or discounted")
+        ctx.check(len(fut) >= 1 and all(c["disc"] == 1 for c in fut), "BEL-2", pi, qd[0], "look-ahead: T*gamma*v discounted once", str(fut), "look-ahead future term missing or not discounted exactly once")
+    cvs = SP.find("converged = (new_pi == pi).all()")
+    ok = bool(cvs) and any(SP.m(f"if {cvs[0][1]['converged']}:\n    break", n) is not None for n in SP.stmts if isinstance(n, ast.If))
+    ctx.check(ok, "BEL-5", pi, cvs[0][0] if cvs else pi.node, "inner iteration stops on policy stability", "", "inner stop rule changed")
     # ---- dynamic_programming layout
     dp = E.methods["dynamic_programming"]
-    dsrc = ast.unparse(dp.node)
-    call = calls_named(dp, "_state_nodes_to_matrices")
-    rows, cols = (ast.unparse(call[0].args[0]), ast.unparse(call[0].args[1])) if call else (None, None)
-    lp = [n for n in fn_body_nodes(dp) if isinstance(n, ast.For) and ast.unparse(n.iter).startswith("enumerate(")]
-    ok = bool(lp) and ast.unparse(lp[0].iter) == f"enumerate({rows})"
-    ctx.check(ok, "LAY-1", dp, lp[0] if lp else dp.node, "results are read back row by row in the order of the node list that laid out the rows", "", "row order of the read-back differs from the layout")
-    zips = [c for c in ast.walk(dp.node) if isinstance(c, ast.Call) and isinstance(c.func, ast.Name) and c.func.id == "zip"]
-    ok = bool(zips) and ast.unparse(zips[0].args[0]) == cols and ast.unparse(zips[0].args[1]).replace(" ", "") == "q[si,:]"
-    ctx.check(ok, "LAY-1", dp, zips[0] if zips else dp.node, "action values are paired with the action list that laid out the columns", "", "column order of the read-back differs from the layout")
-    ok = "optimal_action = max(node.action_order, key=lambda a: action_vals[a])" in dsrc and "node.optimal_action = optimal_action" in dsrc
-    ctx.check(ok, "BEL-4", dp, dp.node, "optimal action is chosen among the node's own action order", "", "optimal action is not taken from node.action_order")
-    ctx.check("node.value = v[si]" in dsrc, "LAY-1", dp, dp.node, "node value = solved value of its own row", "", "node value is not v[si]")
-    ok = "pi, v, q = self._policy_iteration(tf, rf, am)" in dsrc and "tf, rf, am = self._state_nodes_to_matrices(" in dsrc
-    ctx.check(ok, "LAY-1", dp, dp.node, "matrices are passed to the inner policy iteration in (tf, rf, am) order", "", "matrix wiring changed")
+    SD = Snips(dp)
+    dnodes = dp.positional_params[1]
+    d1 = SD.solve(["tf, rf, am = self._state_nodes_to_matrices(E_rows, E_cols)", "pi, v, q = self._policy_iteration(tf, rf, am)"])
+    ctx.check(d1 is not None, "LAY-1", dp, d1[1][0] if d1 else dp.node, "matrices are passed to the inner policy iteration in (T, R, availability) order", "", "matrix wiring changed")
+    de = d1[0] if d1 else {}
+    rows, cols = (ast.unparse(de["rows"]), ast.unparse(de["cols"])) if d1 else (None, None)
+    lpn, le = SD.first(f"for si, node in enumerate({rows}):\n    REST") if rows else (None, None)
+    ctx.check(lpn is not None, "LAY-1", dp, lpn if lpn is not None else dp.node, "results are read back row by row in the order of the node list that laid out the rows", "", "row order of the read-back differs from the layout")
+    if le:
+        de = {**de, **{k: le[k] for k in ("si", "node")}}
+    z = SD.find(f"zip({cols}, q[si, :])", de) if cols else []
+    ctx.check(bool(z), "LAY-1", dp, z[0][0] if z else dp.node, "action values are paired with the action list that laid out the columns", "", "column order of the read-back differs from the layout")
+    o1 = SD.solve(["action_vals = {a: v0 for a, v0 in zip(ANY, ANY)}", "optimal_action = max(node.action_order, key=lambda a2: action_vals[a2])", "node.optimal_action = optimal_action"], {k: de[k] for k in ("node",) if k in de})
+    ctx.check(o1 is not None, "BEL-4", dp, o1[1][1] if o1 else dp.node, "optimal action is chosen among the node's own action order", "", "optimal action is not taken from node.action_order by maximising the paired action values")
+    ctx.check(SD.has("node.value = v[si]", de), "LAY-1", dp, dp.node, "node value = solved value of its own row", "", "node value is not v[si]")
     # ---- node initialisation
     ini = E.methods["_initialize_node"]
-    isrc = ast.unparse(ini.node)
-    ok = "sorted(self.mdp.actions(s), key=lambda a: self.rng.random())" in isrc and "action_order = self.mdp.actions(s)" in isrc
-    ctx.check(ok, "NODE-1", ini, ini.node, "action order is mdp.actions(s) (optionally shuffled with the graph's generator)", "", "node action order is not derived from mdp.actions(s)")
-    ok = "value=self.heuristic(s)" in isrc and "optimal_action=action_order[0]" in isrc and "expanded=False" in isrc
-    ctx.check(ok, "NODE-1", ini, ini.node, "new nodes start at the heuristic value with the first action of their own order", "", "node initialisation changed")
-    ex = E.methods["expand_at"]
-    esrc = ast.unparse(ex.node)
-    ok = "for a in node.action_order" in esrc and "self.mdp.next_state_dist(s, a).support" in esrc and "node.action_nextstates[a].append(nextnode.state)" in esrc
-    ctx.check(ok, "NODE-1", ex, ex.node, "expansion records the successors of next_state_dist(s, a) for each own action", "", "expansion changed")
+    SI = Snips(ini)
+    s_p = ini.positional_params[1]
+    a1 = SI.find(f"action_order = sorted(self.mdp.actions({s_p}), key=lambda a: self.rng.random())")
+    a2 = SI.find(f"action_order = self.mdp.actions({s_p})", a1[0][1] if a1 else None)
+    ctx.check(bool(a1) and bool(a2), "NODE-1", ini, ini.node, "action order is mdp.actions(s) (optionally shuffled with the graph's generator)", "", "node action order is not derived from mdp.actions(s)")
+    ao = a1[0][1]["action_order"] if a1 else "action_order"
+    nc = [c for c in ast.walk(ini.node) if isinstance(c, ast.Call) and ast.unparse(c.func) == "Node"]
+    kw = {k.arg: ast.unparse(k.value) for k in nc[0].keywords} if nc else {}
+    ok = kw.get("value") == f"self.heuristic({s_p})" and kw.get("optimal_action") == f"{ao}[0]" and kw.get("expanded") == "False" and kw.get("action_order") == ao and kw.get("state") == s_p
+    ctx.check(ok, "NODE-1", ini, nc[0] if nc else ini.node, "new nodes start at the heuristic value with the first action of their own order", "", "node initialisation changed")
+    ex_ = E.methods["expand_at"]
+    SE = Snips(ex_)
+    st_p = ex_.positional_params[1]
+    e1 = SE.solve([f"node = self.states_to_nodes[{st_p}]", "for a in node.action_order:\n    REST", "node.action_nextstates[a].append(nextnode.state)"])
+    ok = e1 is not None and (SE.has(f"self.mdp.next_state_dist({st_p}, a).support", e1[0]) or any(SE.has(f"self.mdp.next_state_dist({al_}, a).support", e1[0]) for al_ in
+                                                                                                  [e["s"] for _, e in SE.find(f"s = {st_p}")]))
+    ctx.check(ok, "NODE-1", ex_, ex_.node, "expansion records the successors of next_state_dist(s, a) for each own action", "", "expansion changed")
     # ---- solution graph
     sg = P.cls("SolutionGraph").methods["__init__"]
-    ssrc = ast.unparse(sg.node)
-    ok = "nextstates = node.action_nextstates[node.optimal_action]" in ssrc and "for s0 in explicit_graph.initial_states" in ssrc and "self.nonterminal_tip_states.append(node.state)" in ssrc
-    ctx.check(ok, "SG-1", sg, sg.node, "solution graph follows each node's optimal action from the initial states; unexpanded nodes are tips", "", "solution-graph traversal changed")
+    SG = Snips(sg)
+    gp = sg.positional_params[1]
+    g1 = SG.solve([f"for s0 in {gp}.initial_states:\n    REST", f"node = {gp}.states_to_nodes[s]", "nextstates = node.action_nextstates[node.optimal_action]", "frontier.extend(nextstates)",
+                   "self.nonterminal_tip_states.append(node.state)"])
+    ctx.check(g1 is not None, "SG-1", sg, sg.node, "solution graph follows each node's optimal action from the initial states; unexpanded nodes are tips", "", "solution-graph traversal changed")
     isol = P.cls("SolutionGraph").methods["is_solved"]
-    ctx.check("len(self.nonterminal_tip_states) == 0" in ast.unparse(isol.node), "SG-1", isol, isol.node, "solved = no non-terminal tips", "", "solved predicate changed")
+    ctx.check(Snips(isol).has("return len(self.nonterminal_tip_states) == 0"), "SG-1", isol, isol.node, "solved = no non-terminal tips", "", "solved predicate changed")
     # ---- planner
     L = P.cls("LAOStar")
     po = L.methods["plan_on"]
-    psrc = ast.unparse(po.node)
-    ok = "solution_graph = explicit_graph.solution_graph()" in psrc and "converged=solution_graph.is_solved()" in psrc and psrc.index("self._run_lao_star(mdp)") < psrc.index("explicit_graph.solution_graph()")
-    ctx.check(ok, "BEL-5", po, po.node, "converged = solved-predicate of the final solution graph", "", "converged is not the solved predicate of the solution graph computed after the search")
-    ok = "initial_value=explicit_graph.initial_value()" in psrc and "state_value_map=explicit_graph.state_value_map()" in psrc and "policy=self._create_policy(solution_graph, mdp)" in psrc
-    ctx.check(ok, "BEL-6", po, po.node, "reported values / policy come from the final explicit and solution graphs", "", "result wiring changed")
+    SPO = Snips(po)
+    mp_ = po.positional_params[1]
+    p1 = SPO.solve([f"explicit_graph, iterations = self._run_lao_star({mp_})", "solution_graph = explicit_graph.solution_graph()"])
+    rr = [n for n in fn_body_nodes(po) if isinstance(n, ast.Return) and isinstance(n.value, ast.Call)]
+    kw = {k.arg: ast.unparse(k.value) for k in rr[0].value.keywords} if rr else {}
+    pe_ = p1[0] if p1 else {}
+    ok = p1 is not None and p1[1][0].lineno < p1[1][1].lineno and kw.get("converged") == f"{pe_.get('solution_graph')}.is_solved()"
+    ctx.check(ok, "BEL-5", po, rr[0] if rr else po.node, "converged = solved-predicate of the final solution graph", "", "converged is not the solved predicate of the solution graph computed after the search")
+    ok = p1 is not None and kw.get("initial_value") == f"{pe_['explicit_graph']}.initial_value()" and kw.get("state_value_map") == f"{pe_['explicit_graph']}.state_value_map()" \
+        and kw.get("policy") == f"self._create_policy({pe_['solution_graph']}, {mp_})"
+    ctx.check(ok, "BEL-6", po, rr[0] if rr else po.node, "reported values / policy come from the final explicit and solution graphs", "", "result wiring changed")
     iv = E.methods["initial_value"]
     acc = [n for n in ast.walk(iv.node) if isinstance(n, ast.AugAssign)]
     lp2 = [n for n in ast.walk(iv.node) if isinstance(n, ast.For)]
     inf2 = items_loop_info(lp2[0]) if lp2 else None
     ok = bool(acc) and inf2 is not None and inf2[1] == "initial_state_dist" and alg.normalise(acc[0].value) == {tuple(sorted(((f"self.states_to_nodes[{inf2[3]}].value", 1), (inf2[4], 1)))): Fraction(1)}
+    ok = ok and isinstance(acc[0].op, ast.Add) and Snips(iv).has(f"return {ast.unparse(acc[0].target)}") and Snips(iv).has(f"{ast.unparse(acc[0].target)} = 0")
     ctx.check(ok, "BEL-6", iv, acc[0] if acc else iv.node, "initial_value = sum over initial_state_dist of node value * p", "", "initial value is not the initial-distribution expectation of node values")
     run_ = L.methods["_run_lao_star"]
-    rsrc = ast.unparse(run_.node)
-    brk = [n for n in ast.walk(run_.node) if isinstance(n, ast.If) and any(isinstance(b, ast.Break) for b in n.body)]
-    ok = bool(brk) and ast.unparse(brk[0].test) == "solution_graph.is_solved()" and "for i in range(self.max_lao_star_iterations)" in rsrc
+    SR = Snips(run_)
+    r1 = SR.solve(["for i in range(self.max_lao_star_iterations):\n    REST", "solution_graph = explicit_graph.solution_graph()", "if solution_graph.is_solved():\n    break"])
+    brk = [n for n in ast.walk(run_.node) if isinstance(n, ast.If) and any(isinstance(b, ast.Break) for b in ast.walk(n))]
+    ok = r1 is not None and len(brk) == 1
     ctx.check(ok, "BEL-5", run_, brk[0] if brk else run_.node, "main loop exits only when the solution graph is solved or at the iteration cap", "", "main loop exit changed")
-    ok = "explicit_graph.expand_at(s)" in rsrc and "explicit_graph.revise_value_from(expand_states)" in rsrc and "solution_graph.best_breadth_first_tip_state()" in rsrc
-    ctx.check(ok, "BEL-5", run_, run_.node, "each iteration expands a tip of the current solution graph and revises its ancestors", "", "expand/revise step changed")
+    r2 = SR.solve(["expand_states = [solution_graph.best_breadth_first_tip_state()]", "for s in expand_states:\n    explicit_graph.expand_at(s)", "ANY = explicit_graph.revise_value_from(expand_states)"], r1[0] if r1 else None) if r1 else None
+    if r2 is None and r1:
+        r2 = SR.solve(["expand_states = [solution_graph.best_breadth_first_tip_state()]", "for s in expand_states:\n    explicit_graph.expand_at(s)", "explicit_graph.revise_value_from(expand_states)"], r1[0])
+    ctx.check(r2 is not None, "BEL-5", run_, run_.node, "each iteration expands a tip of the current solution graph and revises its ancestors", "", "expand/revise step changed")
     # ---- policy closure
     cp = L.methods["_create_policy"]
+    SC = Snips(cp)
+    sgp, mdpp = cp.positional_params[1:3]
     cl = list(cp.nested.values())
+    c0 = SC.solve([f"for s, n in {sgp}.states_to_nodes.items():\n    solution_policy[s] = DeterministicDistribution(n.optimal_action)"])
+    ctx.check(c0 is not None, "POL-1", cp, c0[1][0] if c0 else cp.node, "planned actions are the optimal actions of the solution graph's nodes", "", "planned actions are not the solution graph's optimal actions")
     if cl:
         pf = cl[0]
         pcfg = cfg_of(pf)
         rets = [n for n in pcfg.nodes if n.kind == "stmt" and isinstance(n.ast, ast.Return)]
         ok = bool(rets) and all(r.ast.value is not None for r in rets) and not [p for p, lab in pcfg.exit.pred if lab != "return"]
         ctx.check(ok, "POL-1", pf, pf.node, "the policy closure returns a distribution on every path", "", "some path of the policy closure falls off the end (returns None)")
-        fsrc = ast.unparse(pf.node)
-        ok = "for a in mdp.actions(s)" in fsrc and "DictDistribution.uniform(max_actions)" in fsrc and "solution_policy[s]" in fsrc
-        ctx.check(ok, "POL-1", pf, pf.node, "planned action where available, else heuristic-greedy over mdp.actions(s)", "", "policy fallback changed")
-    csrc = ast.unparse(cp.node)
-    ctx.check("solution_policy[s] = DeterministicDistribution(n.optimal_action)" in csrc and "solution_graph.states_to_nodes.items()" in csrc, "POL-1", cp, cp.node,
-              "planned actions are the optimal actions of the solution graph's nodes", "", "planned actions are not the solution graph's optimal actions")
+        sp_ = pf.positional_params[0]
+        SF = Snips(pf, literals=[mdpp])
+        sp0 = c0[0]["solution_policy"] if c0 else "solution_policy"
+        f1 = SF.solve([f"return {sp0}[{sp_}]", f"for a in {mdpp}.actions({sp_}):\n    REST", "return DictDistribution.uniform(max_actions)"])
+        ctx.check(f1 is not None, "POL-1", pf, pf.node, "planned action where available, else heuristic-greedy over mdp.actions(s)", "", "policy fallback changed")
     arg_permutation_rule(ctx, G, [x for x in P.all_functions() if x.module.name == "msdm.algorithms.laostar"], "ARG")
-    for rr, k in (("TEN-4", 14), ("BND-1", 2), ("BND-2", 1), ("BND-3", 3), ("BND-4", 2), ("TEN-1", 3), ("BEL-2", 4), ("BEL-4", 3), ("BEL-5", 4),
-                  ("BEL-6", 2), ("LAY-1", 4), ("NODE-1", 3), ("SG-1", 2), ("POL-1", 3), ("ARG", 3)):
-        ctx.require(rr, k)
+    for rr_, k in (("TEN-4", 14), ("BND-1", 2), ("BND-2", 1), ("BND-3", 3), ("BND-4", 2), ("TEN-1", 3), ("BEL-2", 4), ("BEL-4", 3), ("BEL-5", 4),
+                   ("BEL-6", 2), ("LAY-1", 4), ("NODE-1", 3), ("SG-1", 2), ("POL-1", 3), ("ARG", 3)):
+        ctx.require(rr_, k)
     ctx.assume("Hansen & Zilberstein 2001: with an admissible heuristic LAO* terminates with an optimal closed policy (theorem about expansion order, not checked)")
